@@ -111,6 +111,11 @@ class C08(Check):
                 for comment in ((b"",) if S != G else (b"", b"zip64 comment")):
                     ents = [(b"a", S, large, 0, 7 if S % 2 else 0, 1), (b"b", 5, False, 0, 9, 1)]
                     cases.append((self.big_line(ents, comment), dict(k="bigw", ents=ents, comment=comment, impl_only=True)))
+        # a COMPRESSED entry not declared large whose LAST write takes it past the limit (only the write-time check
+        # can refuse it: the compressed size stays small)
+        for S, chunk in ((G, 1 << 20),) if self.tier == "quick" else ((G, 1 << 20), (G, 1 << 28), (G + (1 << 20) - 1, 1 << 20)):
+            ents = [(b"dz", S, False, 8, 0, 1)]
+            cases.append((self.big_line(ents, b"", chunk), dict(k="bigw", ents=ents, comment=b"", impl_only=True)))
         # header offset of the second entry exactly at the boundary
         for target in (G - 2, G - 1, G, G + 1):
             hdr = 30 + 3 + 20
